@@ -41,7 +41,7 @@ PLAN = {
     # every one of the 33^4 data areas of the 4-block device (about 15 min per version on 8 cores)
     "exhaustive": [("pin3", 20, None), ("pin2", 20, None)],
 }
-EXTRA = {"quick": dict(mutate=6000, random=1500), "thorough": dict(mutate=60000, random=12000),
+EXTRA = {"quick": dict(mutate=10000, random=2500), "thorough": dict(mutate=60000, random=12000),
          "exhaustive": dict(mutate=0, random=0)}
 
 
